@@ -7,13 +7,13 @@ HERE = os.path.dirname(os.path.dirname(os.path.abspath(__file__)))
 
 NOTE = ('trusted base: the simulator (vsim/core.py scheduler, pipes, tape replay), the world '
         'generator, the unittest model (vsim/world.py predict_test, validated against every run by '
-        'C05) and the reference selection model; the simulator runs on CPython 3.12.1 (C05/C11/C13 add directed real-process runs under 3.9/3.10/3.11/3.13); children are forked from a '
+        'C05) and the reference selection model; the simulator runs on CPython 3.12.1 (C04/C05/C11/C13 add directed real-process runs under 3.9/3.10/3.11/3.13); children are forked from a '
         'warmed interpreter rather than exec()ed; sampling, not enumeration')
 
 CHECKS = {
     'C01': ('worldsim', '5.1', 'layer-stack automaton replayed over the pid-tagged hook trace of seeded simulated runs with injected layer setUp/tearDown/NotImplementedError faults; failed set-ups of multi-base layers; tests owed after a NotImplementedError tear-down also under -x'),
     'C02': ('worldsim', '5.2', 'verdict of run_internal vs. ground truth of injected faults (tests, layers, imports, child death, spawn failure, truncated report) under the simulated process layer, both modes; slow children, transient pipe read errors, undecodable child output, line-level pre-emption of the worker threads'),
-    'C04': ('worldsim', '5.4', 'exception injection at every test/layer phase in simulated runs; containment oracle on trace and output'),
+    'C04': ('worldsim', '5.4', 'exception injection at every test/layer phase in simulated runs; containment oracle on trace and output; directed specs re-run as real processes under CPython 3.9/3.10/3.11/3.13 (exit status, no traceback of the runner, summary)'),
     'C05': ('worldsim', '5.5', 'bracket automaton over testSetUp/testTearDown events of seeded simulated runs with injected outcome faults and a failing write to the runner\'s stdout at a seed-chosen point; directed specs re-run as real processes under CPython 3.9/3.10/3.11/3.13'),
     'C03': ('worldsim', '5.3', 'executed multiset over all pids vs. reference selection model, for --list-tests / sequential / simulated -j N / resumed executions of one spec (exactly-once across processes), also with a failed spawn, with sys.argv changed by a test before layers are resumed, and with overlapping -s search directories'),
     'C06': ('procsim', '5.6', 'seeded and directed (all k! forced completion orders, barrier, stalls) schedules of the real resume_tests/spawn threads over tape-replaying child actors; block/ordering oracle, alive<=N invariant at every spawn, bounded-progress by structural hang detection; line-level pre-emption of the parent\'s threads, failed spawns, slow parent stdout'),
